@@ -1,7 +1,8 @@
 """C14 — Sandpile is the BTW toppling rule; grains are conserved: correspondence generators and runners.
 
-One case = Sandpile(rows, cols, closed) + add_grain schedule + evolve2d(init, T, rule, r=1,
-neighbourhood='von Neumann', memoize=...).  Observable: the returned array."""
+One case = Sandpile(rows, cols, closed) + add_grain schedule + evolve2d(np.array([init], dtype), T, rule, r=1,
+neighbourhood='von Neumann' | 'Moore', memoize=...).  Observable: the returned array.
+op = 'reuse': the SAME Sandpile object drives two consecutive evolve2d calls; both arrays are observed."""
 import itertools
 from harness.driver import call_impl, cz, cnat, cbool, clist, cgrid, chist, cres
 
@@ -13,14 +14,20 @@ NONTRIVIAL_RULE = ('non-trivial = the call returned an array and at least one ce
 EXHAUSTIVE = {'quick': False, 'thorough': False}
 NOTES = ['all 36 shapes 1x1..6x6 in both boundary modes; 1x1, 1x2, 2x1 grids swept over {0,3,4,5,9}^cells',
          'closed-mode streams with NON-zero boundary cells, additions on a toppling configuration, additions on '
-         'closed boundary cells and constructor sizes different from the grid are outside the premise of the '
-         'property text and are compared against the model only (the model covers them)',
-         'memoize=True / "recursive" only with the open boundary and no additions (the rule is then pure)']
-ASSUMPTIONS = ['the automaton array has an integer dtype wide enough for the counts (int64 here): store = identity',
+         'closed boundary cells, negative counts and constructor sizes different from the grid are outside the '
+         'premise of the property text and are compared against the model only (the model covers them)',
+         'memoize=True / "recursive" only with the open boundary and no additions (the rule is then pure)',
+         'both neighbourhood types (the rule reads the same five entries); grid dtypes int64, uint8, uint16, uint32, '
+         'uint64, int8, int32, float64 with counts representable in the dtype',
+         'reuse/*: one Sandpile object with a schedule drives two consecutive evolve2d calls; the model rule object '
+         'is stateless, so the second call is compared with the full schedule']
+ASSUMPTIONS = ['the automaton array has a dtype in which every count of the run is representable: store = identity',
                'add_grain is given a tuple (row, col) of non-negative ints (a list never equals the tuple c)',
                'the documented call: r=1; the rule reads n[0][1], n[1][0], n[1][1], n[1][2], n[2][1] only']
 TRUSTED = ['numpy MaskedArray indexing of an unmasked entry returns its value (checked: C14_read_entries_unmasked '
            'states the five entries are unmasked in the model mask; C02 ties that mask to the real one)']
+
+DTYPES = ['uint8', 'uint16', 'uint32', 'uint64', 'int8', 'int32', 'float64']
 
 
 # ---------------------------------------------------------------- generators
@@ -37,11 +44,11 @@ def _zero_boundary(g):
     return [[0 if _is_boundary(R, C, i, j) else g[i][j] for j in range(C)] for i in range(R)]
 
 
-def _case(kind, g, closed, T, adds=(), memo='False', rows=None, cols=None):
+def _case(kind, g, closed, T, adds=(), memo='False', rows=None, cols=None, nbhd='von Neumann', dtype='int64'):
     R, C = len(g), len(g[0])
-    return {'kind': kind, 'rows': R if rows is None else rows, 'cols': C if cols is None else cols,
+    return {'kind': kind, 'op': 'evolve', 'rows': R if rows is None else rows, 'cols': C if cols is None else cols,
             'closed': bool(closed), 'adds': [[int(a), int(b), int(t)] for a, b, t in adds], 'init': g, 'T': int(T),
-            'memo': memo}
+            'memo': memo, 'nbhd': nbhd, 'dtype': dtype}
 
 
 def _shape_kind(R, C):
@@ -54,7 +61,7 @@ def _shape_kind(R, C):
     return 'RxC'
 
 
-def _rand_adds(rng, R, C, T, k, interior_only, closed):
+def _rand_adds(rng, R, C, T, k, interior_only, closed, tmax=None):
     cells = [(i, j) for i in range(R) for j in range(C)
              if not (interior_only and closed and _is_boundary(R, C, i, j))]
     out = []
@@ -62,7 +69,7 @@ def _rand_adds(rng, R, C, T, k, interior_only, closed):
         if not cells:
             break
         i, j = rng.choice(cells)
-        out.append((i, j, rng.randint(1, max(1, T - 1))))
+        out.append((i, j, rng.randint(1, max(1, (T - 1) if tmax is None else tmax))))
     return out
 
 
@@ -76,19 +83,25 @@ def generate(rng, tier):
             g = [list(cfg[i * C:(i + 1) * C]) for i in range(R)]
             yield _case('tiny/open', g, False, 4)
             yield _case('tiny/closed', g, True, 3)
+    n = 0
     for _ in range(reps):
         for (R, C) in shapes:
             sk = _shape_kind(R, C)
+            n += 1
             # open torus, no additions
-            for _ in range(4):
+            for _ in range(3):
                 yield _case('open/%s' % sk, _grid(rng, R, C, 0, 12), False, rng.randint(2, 8))
             g = [[0] * C for _ in range(R)]
             g[rng.randrange(R)][rng.randrange(C)] = rng.randint(4, 12)
             yield _case('open/single_pile/%s' % sk, g, False, 8)
-            yield _case('open/large/%s' % sk, _grid(rng, R, C, 0, 1000), False, rng.randint(2, 5))
+            yield _case('open/large/%s' % sk, _grid(rng, R, C, 0, 1000), False, rng.randint(2, 5),
+                        dtype=rng.choice(['int64', 'uint16', 'int32', 'uint64', 'float64']))
             yield _case('open/T1/%s' % sk, _grid(rng, R, C, 0, 12), False, 1)
+            # negative counts (the theorems are over Z; never topple, never count as toppling): model-compared
+            yield _case('open/negative/%s' % sk, _grid(rng, R, C, -6, 9), False, rng.randint(2, 5),
+                        dtype=rng.choice(['int64', 'int8', 'int32', 'float64']))
             # closed boundary, boundary cells 0 as documented
-            for _ in range(4):
+            for _ in range(3):
                 yield _case('closed/%s' % sk, _zero_boundary(_grid(rng, R, C, 0, 12)), True, rng.randint(2, 8))
             # closed boundary, boundary cells NOT zero: model-compared only
             for _ in range(2):
@@ -139,38 +152,103 @@ def generate(rng, tier):
                             _rand_adds(rng, R, C, T, rng.randint(1, 3), False, closed))
             yield _case('add/on_closed_boundary/%s' % sk, _zero_boundary(_grid(rng, R, C, 0, 5)), True, 4,
                         [(0, rng.randrange(C), 1), (R - 1, rng.randrange(C), 2), (rng.randrange(R), 0, 1)])
-            # memoised engines: open boundary, no additions => the rule is pure
+            # memoised engines: open boundary, no additions => the rule is pure (both neighbourhood types)
             for memo in ('True', 'recursive'):
-                yield _case('memo_%s/%s' % (memo, sk), _grid(rng, R, C, 0, 12), False, rng.randint(2, 6), memo=memo)
+                yield _case('memo_%s/%s' % (memo, sk), _grid(rng, R, C, 0, 12), False, rng.randint(2, 6), memo=memo,
+                            nbhd=rng.choice(['von Neumann', 'Moore']))
             # constructor sizes different from the grid (closed mode reads them): model-compared
             yield _case('ctor_mismatch/%s' % sk, _grid(rng, R, C, 0, 8), True, 3,
                         rows=rng.choice([0, 1, R + 1, max(1, R - 1)]), cols=rng.choice([0, 1, C + 1, max(1, C - 1)]))
+            # neighbourhood='Moore' (evolve2d's default): the rule reads the same five entries of the unmasked block
+            yield _case('moore/open/%s' % sk, _grid(rng, R, C, 0, 12), False, rng.randint(2, 6), nbhd='Moore')
+            yield _case('moore/closed/%s' % sk, _zero_boundary(_grid(rng, R, C, 0, 12)), True, rng.randint(2, 6),
+                        nbhd='Moore')
+            closed = rng.random() < 0.5
+            T = rng.randint(2, 6)
+            g = _grid(rng, R, C, 0, 3)
+            yield _case('moore/add_stable/%s' % sk, _zero_boundary(g) if closed else g, closed, T,
+                        _rand_adds(rng, R, C, T, rng.randint(1, 3), True, closed), nbhd='Moore')
+            # grid dtypes: unsigned (a subtraction evaluated before the threshold test would wrap), narrow, float.
+            # counts <= 12 (+4 incoming) are representable in all of them.  Per dtype one of three streams.
+            for k, dt in enumerate(DTYPES):
+                which = (k + n) % 3
+                nb = 'Moore' if (k + n) % 5 == 0 else 'von Neumann'
+                if which == 0:
+                    yield _case('dtype/%s/open/%s' % (dt, sk), _grid(rng, R, C, 0, 12), False, rng.randint(2, 5),
+                                dtype=dt, nbhd=nb)
+                elif which == 1:
+                    yield _case('dtype/%s/closed/%s' % (dt, sk), _zero_boundary(_grid(rng, R, C, 0, 12)), True,
+                                rng.randint(2, 5), dtype=dt, nbhd=nb)
+                else:
+                    closed = rng.random() < 0.5
+                    T = rng.randint(2, 5)
+                    g = _grid(rng, R, C, 0, 3)
+                    yield _case('dtype/%s/add_stable/%s' % (dt, sk), _zero_boundary(g) if closed else g, closed, T,
+                                _rand_adds(rng, R, C, T, rng.randint(1, 2), True, closed), dtype=dt, nbhd=nb)
+            # one Sandpile object, one schedule, two consecutive evolve2d calls (a rule object that consumes its
+            # schedule would lose, in the second call, the grains scheduled for steps the first call has passed)
+            for closed in (False, True):
+                T1 = rng.randint(3, 6)
+                T2 = rng.randint(3, 6)
+                hi = 3 if rng.random() < 0.6 else 12
+                g1, g2 = _grid(rng, R, C, 0, hi), _grid(rng, R, C, 0, hi)
+                if closed:
+                    g1, g2 = _zero_boundary(g1), _zero_boundary(g2)
+                adds = _rand_adds(rng, R, C, T1, rng.randint(2, 3), True, closed, tmax=min(T1 - 2, T2 - 1))
+                c = _case('reuse/%s/%s/%s' % ('stable' if hi == 3 else 'toppling', 'closed' if closed else 'open', sk),
+                          g1, closed, T1, adds, nbhd=rng.choice(['von Neumann', 'Moore']),
+                          dtype=rng.choice(['int64', 'uint8']))
+                c.update(op='reuse', init2=g2 if rng.random() < 0.7 else g1, T2=T2)
+                yield c
 
 
 # ---------------------------------------------------------------- the implementation
 def run_impl(c):
     import numpy as np
     import cellpylib as cpl
+    memo = {'False': False, 'True': True, 'recursive': 'recursive'}[c['memo']]
+    box = {}
 
-    def go():
-        s = cpl.Sandpile(c['rows'], c['cols'], is_closed_boundary=c['closed'])
-        for (i, j, t) in c['adds']:
-            s.add_grain((i, j), t)
-        memo = {'False': False, 'True': True, 'recursive': 'recursive'}[c['memo']]
-        ca = np.array([c['init']])
-        out = cpl.evolve2d(ca, c['T'], s, r=1, neighbourhood='von Neumann', memoize=memo)
-        return [[[int(x) for x in row] for row in g] for g in out.tolist()]
-    return list(call_impl(go))
+    def rule():
+        if 's' not in box:
+            s = cpl.Sandpile(c['rows'], c['cols'], is_closed_boundary=c['closed'])
+            for (i, j, t) in c['adds']:
+                s.add_grain((i, j), t)
+            box['s'] = s
+        return box['s']
+
+    def go(init, T):
+        def f():
+            ca = np.array([init], dtype=np.dtype(c['dtype']))
+            out = cpl.evolve2d(ca, T, rule(), r=1, neighbourhood=c['nbhd'], memoize=memo)
+            return [[[int(x) for x in row] for row in g] for g in out.tolist()]
+        return f
+    if c['op'] == 'reuse':
+        o1 = list(call_impl(go(c['init'], c['T'])))
+        o2 = list(call_impl(go(c['init2'], c['T2'])))
+        return ['reuse', o1, o2]
+    return list(call_impl(go(c['init'], c['T'])))
 
 
 def to_coq(c, obs):
     adds = clist(c['adds'], lambda a: '((%s, %s), %s)' % (cnat(a[0]), cnat(a[1]), cnat(a[2])))
-    return '(CEvolve %s %s %s %s %s %s %s)' % (cnat(c['rows']), cnat(c['cols']), cbool(c['closed']), adds,
-                                              cgrid(c['init']), cnat(c['T']), cres(obs, chist))
+    ty = 'Moore' if c['nbhd'] == 'Moore' else 'VonNeumann'
+    if c['op'] == 'reuse':
+        return '(CReuse %s %s %s %s %s %s %s %s %s %s %s)' % (
+            cnat(c['rows']), cnat(c['cols']), cbool(c['closed']), adds, ty,
+            cgrid(c['init']), cnat(c['T']), cres(obs[1], chist), cgrid(c['init2']), cnat(c['T2']), cres(obs[2], chist))
+    return '(CEvolve %s %s %s %s %s %s %s %s)' % (cnat(c['rows']), cnat(c['cols']), cbool(c['closed']), adds, ty,
+                                                 cgrid(c['init']), cnat(c['T']), cres(obs, chist))
+
+
+def _runs(c, obs):
+    if c['op'] == 'reuse':
+        return [(c['init'], c['T'], obs[1]), (c['init2'], c['T2'], obs[2])]
+    return [(c['init'], c['T'], obs)]
 
 
 def nontrivial(c, obs):
-    return obs[0] == 'ok' and any(g != obs[1][0] for g in obs[1])
+    return all(o[0] == 'ok' for _, _, o in _runs(c, obs)) and any(g != o[1][0] for _, _, o in _runs(c, obs) for g in o[1])
 
 
 # ---------------------------------------------------------------- the property's own statement
@@ -183,11 +261,19 @@ def _btw(g):
 
 
 def oracle(c, obs):
+    for k, (init, T, o) in enumerate(_runs(c, obs)):
+        msg = _oracle_run(c, init, T, o)
+        if msg:
+            return ('call %d with the same rule object: ' % (k + 1) if c['op'] == 'reuse' else '') + msg
+    return None
+
+
+def _oracle_run(c, init, T, obs):
     if obs[0] != 'ok':
         return 'evolve2d raised %s' % obs[1]
     hist = obs[1]
-    R, C = len(c['init']), len(c['init'][0])
-    if len(hist) != c['T'] or hist[0] != c['init']:
+    R, C = len(init), len(init[0])
+    if len(hist) != T or hist[0] != init:
         return 'history has the wrong length or does not start with the initial grid'
     documented = c['rows'] == R and c['cols'] == C
     if not documented:
@@ -197,6 +283,7 @@ def oracle(c, obs):
         prev, cur = hist[t - 1], hist[t]
         firing = {(i, j) for (i, j, tt) in c['adds'] if tt == t and i < R and j < C}
         bz = all(prev[i][j] == 0 for i in range(R) for j in range(C) if _is_boundary(R, C, i, j))
+        nonneg = all(x >= 0 for r in prev for x in r)
         stable = all(x < 4 for r in prev for x in r)
         if not firing:
             if not c['closed']:
@@ -205,8 +292,13 @@ def oracle(c, obs):
                 if cur != _btw(prev):
                     return 'open boundary: step %d is not the BTW toppling of the previous grid' % t
             else:
-                if tot[t] > tot[t - 1]:
+                if (bz or nonneg) and tot[t] > tot[t - 1]:
                     return 'closed boundary: total increased from %d to %d at step %d' % (tot[t - 1], tot[t], t)
+                b = _btw(prev)
+                exp = [[0 if _is_boundary(R, C, i, j) else b[i][j] for j in range(C)] for i in range(R)]
+                if cur != exp:
+                    return ('closed boundary: step %d is not the BTW toppling of the interior cells with the '
+                            'boundary cells held at 0' % t)
         if c['closed'] and any(cur[i][j] != 0 for i in range(R) for j in range(C) if _is_boundary(R, C, i, j)):
             return 'closed boundary: a boundary cell is not 0 after step %d' % t
         if stable and (bz or not c['closed']):
@@ -222,17 +314,24 @@ def shrink(c):
     if c['T'] > 2:
         yield dict(c, T=c['T'] - 1)
         yield dict(c, T=2)
+    if c['op'] == 'reuse' and c['T2'] > 2:
+        yield dict(c, T2=c['T2'] - 1)
     if c['memo'] != 'False':
         yield dict(c, memo='False')
+    if c['dtype'] != 'int64':
+        yield dict(c, dtype='int64')
+    if c['nbhd'] != 'von Neumann':
+        yield dict(c, nbhd='von Neumann')
     for k in range(len(c['adds'])):
         yield dict(c, adds=c['adds'][:k] + c['adds'][k + 1:])
-    g = c['init']
-    for i in range(len(g)):
-        for j in range(len(g[0])):
-            if g[i][j] != 0:
-                g2 = [list(r) for r in g]
-                g2[i][j] = 0
-                yield dict(c, init=g2)
+    for key in (('init', 'init2') if c['op'] == 'reuse' else ('init',)):
+        g = c[key]
+        for i in range(len(g)):
+            for j in range(len(g[0])):
+                if g[i][j] != 0:
+                    g2 = [list(r) for r in g]
+                    g2[i][j] = 0
+                    yield dict(c, **{key: g2})
 
 
 # ------------------------------------------------------------------ source tie (appended; harness/translate.py)
